@@ -36,6 +36,14 @@ fn pool(n: usize, ops: &str) -> String {
                 let g = pool.take();
                 out.push(format!("t{}:{}", start, ids(&g)));
             }
+            "ts" => {
+                // take, summarised (for very large slices): start, length, first and last id
+                let start = pool.num_taken();
+                let g = pool.take();
+                let first = g.first().map(|i| i.text().to_string()).unwrap_or_else(|| "_".into());
+                let last = g.last().map(|i| i.text().to_string()).unwrap_or_else(|| "_".into());
+                out.push(format!("T{}:{}:{}:{}", start, g.len(), first, last));
+            }
             "r" => {
                 pool.reset();
                 out.push("u".into());
@@ -191,12 +199,57 @@ fn matcher_runs(batches: &[usize]) -> String {
     format!("matched={} exact={} index_errors={}", matched, if exact { 1 } else { 0 }, index_errors)
 }
 
+/// H-case: the real `Header` widget over the real pool: appends in chunks, clears (command re-run), and draws in between;
+/// a draw reports the widget's height and the rows it shows (bottom-up: row `height-1-i` is header line i).
+fn header(n: usize, ops: &str) -> String {
+    use crate::canvas::RecCanvas;
+    use skim::verif::Header;
+    use tuikit::prelude::{Draw, Widget};
+    let pool = Arc::new(defer_drop::DeferDrop::new(ItemPool::new().lines_to_reserve(n)));
+    let hdr = Header::empty().item_pool(pool.clone());
+    let mut next = 0usize;
+    let mut out = vec![];
+    for t in ops.split(' ').filter(|t| !t.is_empty()) {
+        let mut it = t.split(':');
+        match it.next().unwrap_or("") {
+            "a" => {
+                let k: usize = it.next().and_then(|k| k.parse().ok()).unwrap_or(0);
+                let items: Vec<Arc<dyn SkimItem>> =
+                    (next..next + k).map(|i| Arc::new(i.to_string()) as Arc<dyn SkimItem>).collect();
+                next += k;
+                pool.append(items);
+                out.push("u".to_string());
+            }
+            "c" => {
+                pool.clear();
+                out.push("u".into());
+            }
+            "d" => {
+                let h = 50usize;
+                let mut canvas = RecCanvas::new(30, h);
+                let hint = hdr.size_hint().1.unwrap_or(0);
+                if hdr.draw(&mut canvas).is_err() {
+                    out.push("d:error".into());
+                    continue;
+                }
+                let rows: Vec<String> = (0..hint.min(h)).map(|i| canvas.row_text(h - 1 - i, 2)).collect();
+                // nothing may be shown above the rows the widget asks for
+                let extra = (hint.min(h)..h).any(|i| !canvas.row_text(h - 1 - i, 0).is_empty());
+                out.push(format!("d{}:{}{}", hint, if rows.is_empty() { "_".to_string() } else { rows.join(",") }, if extra { ":extra" } else { "" }));
+            }
+            _ => return "error:bad-op".into(),
+        }
+    }
+    out.join(" ")
+}
+
 pub fn run(case: &str) -> String {
     let parts: Vec<&str> = case.split('|').collect();
     match parts.as_slice() {
         ["M", bs] => matcher_runs(&dec_nats(bs)),
         ["X", n, c] => overlap(n.parse().unwrap_or(0), c.parse().unwrap_or(1)),
         ["P", n, ops] => pool(n.parse().unwrap_or(0), ops),
+        ["H", n, ops] => header(n.parse().unwrap_or(0), ops),
         ["L", t, k] => lock(t.parse().unwrap_or(0), k.parse().unwrap_or(0)),
         _ => "error:bad-case".into(),
     }
